@@ -232,6 +232,8 @@ func checkC08(c *Ctx) {
 
 	c08Bodies(c, cfns)
 	c08Release(c)
+	c08CloseAlwaysCloses(c)
+	c08NoLockAcrossWait(c, cfns)
 	c08Loops(c, cfns)
 	c08SingleCloser(c, cfns)
 	c08TablePair(c)
@@ -983,4 +985,157 @@ func iposI(c *Ctx, in ssa.Instruction) string {
 		return "-"
 	}
 	return ipos(c, in)
+}
+
+// c08CloseAlwaysCloses (R-release-on-close): the exported Close of every client hands over to its transport's close on
+// every path, except where it has found that there is no transport. A Close that returns early on a state flag
+// ("already disconnected") leaves what a failed Initialize had already started — the child process, the event stream
+// and its reader goroutine — running for ever.
+func c08CloseAlwaysCloses(c *Ctx) {
+	tr := c.transportIface()
+	conn := c.P.RootNamed("Connector")
+	if tr == nil || conn == nil {
+		return
+	}
+	closeName := c.transportCloseMethod(tr)
+	trI := tr.Underlying().(*types.Interface)
+	isTransport := func(t types.Type) bool {
+		return types.Identical(t, tr) || (!types.IsInterface(t) && types.Implements(t, trI))
+	}
+	closesTransport := func(call ssa.CallInstruction) bool {
+		cc := call.Common()
+		if cc.IsInvoke() {
+			return cc.Method.Name() == closeName && isTransport(cc.Value.Type())
+		}
+		sc := ir.StaticCallee(call)
+		return sc != nil && sc.Name() == closeName && sc.Signature.Recv() != nil && isTransport(sc.Signature.Recv().Type())
+	}
+	n := 0
+	for _, T := range c.P.Implementers(conn.Underlying().(*types.Interface)) {
+		cl := c.P.Method(T, "Close")
+		if cl == nil || len(cl.Blocks) == 0 {
+			continue
+		}
+		isTC := func(in ssa.Instruction) bool {
+			call, ok := in.(ssa.CallInstruction)
+			if !ok {
+				return false
+			}
+			if closesTransport(call) {
+				return true
+			}
+			// through a helper of the client that does it on all its paths
+			if sc := ir.StaticCallee(call); sc != nil && c.P.IsLib(sc) && sc != cl {
+				found := false
+				ir.EachCall(sc, func(ic ssa.CallInstruction) {
+					if closesTransport(ic) {
+						found = true
+					}
+				})
+				return found
+			}
+			return false
+		}
+		var escape *ssa.BasicBlock
+		seen := map[*ssa.BasicBlock]bool{}
+		stack := []*ssa.BasicBlock{cl.Blocks[0]}
+		for len(stack) > 0 && escape == nil {
+			b := stack[len(stack)-1]
+			stack = stack[:len(stack)-1]
+			if seen[b] || b == cl.Recover {
+				continue
+			}
+			seen[b] = true
+			stop := false
+			for _, in := range b.Instrs {
+				if isTC(in) {
+					stop = true
+				}
+			}
+			if stop {
+				continue
+			}
+			last := b.Instrs[len(b.Instrs)-1]
+			if _, isRet := last.(*ssa.Return); isRet {
+				escape = b
+				break
+			}
+			skip := -1
+			if ifi, ok := last.(*ssa.If); ok {
+				// the "no transport" edge: transport == nil (true edge) / transport != nil (false edge)
+				cond, pol := ifi.Cond, 0
+				for {
+					if u, ok := cond.(*ssa.UnOp); ok && u.Op == token.NOT {
+						cond, pol = u.X, 1-pol
+						continue
+					}
+					break
+				}
+				if bin, ok := cond.(*ssa.BinOp); ok {
+					v, other := bin.X, bin.Y
+					if ir.IsNilConst(v) {
+						v, other = other, v
+					}
+					if ir.IsNilConst(other) && isTransport(v.Type()) {
+						if bin.Op == token.EQL {
+							skip = pol
+						} else if bin.Op == token.NEQ {
+							skip = 1 - pol
+						}
+					}
+				}
+			}
+			for i, s := range b.Succs {
+				if i != skip {
+					stack = append(stack, s)
+				}
+			}
+		}
+		n++
+		c.R.Check(escape == nil, "R-release-on-close", ir.TypeKey(T)+".Close always reaches the transport's "+closeName, c.Pos(cl.Pos()),
+			"every path closes the transport unless there is none",
+			sprintf("%s can return without calling the transport's %s although a transport exists (an early return on a state flag): after a failed Initialize the child process / event stream and its reader goroutine are never released", fname(cl), closeName))
+	}
+	if n < 2 {
+		c.R.Break("R-release-on-close: expected the Close of two client types, found %d", n)
+	}
+}
+
+// c08NoLockAcrossWait (R-wait-has-exit): sync.Mutex.Lock cannot be cancelled. A client function that sends an HTTP
+// request, or waits in a select that has a ctx.Done() arm, while holding a mutex therefore makes every other caller of
+// that mutex wait — beyond its own deadline — for as long as the network takes. No library mutex is held at such a point.
+func c08NoLockAcrossWait(c *Ctx, cfns []*ssa.Function) {
+	ls := c.Locks()
+	n := 0
+	for _, fn := range cfns {
+		cnt := 0
+		ir.EachInstr(fn, func(_ *ssa.BasicBlock, _ int, in ssa.Instruction) {
+			what := ""
+			switch x := in.(type) {
+			case *ssa.Call:
+				if nm := ir.CallName(x); nm == "(mcp.HTTPReqHandler).Handle" || nm == "(*net/http.Client).Do" {
+					what = "sends an HTTP request"
+				}
+			case *ssa.Select:
+				if x.Blocking {
+					for _, st := range x.States {
+						if oc := originCall(st.Chan); oc != nil && ir.CallName(oc) == "(context.Context).Done" {
+							what = "waits in a select"
+						}
+					}
+				}
+			}
+			if what == "" {
+				return
+			}
+			n++
+			cnt++
+			held := ls.At(in).Keys()
+			c.R.Check(len(held) == 0, "R-wait-has-exit", sprintf("no mutex held at network wait #%d of %s", cnt, fname(fn)), c.Pos(in.Pos()), "no library mutex is held here",
+				sprintf("%s %s while holding %v: Lock() does not honour a context, so a concurrent call that needs the mutex stays blocked past its own deadline until this one is done", fname(fn), what, held))
+		})
+	}
+	if n < 5 {
+		c.R.Break("R-wait-has-exit: only %d network waits found in client code", n)
+	}
 }
